@@ -505,7 +505,10 @@ def trace_mismatches(rej):
         same_entries = "t" not in ev or len(tree_entries(exp["t"])) == len(tree_entries(ev["t"]))
         if "x" in ev:
             for i, k in enumerate(("alen", "nfree", "count")):
-                if exp["x"][i] != ev["x"][i] and (same_entries if k == "count" else same_shape):
+                differs = (ev["x"][0] > exp["x"][0]) if k == "alen" else \
+                          (ev["x"][0] == exp["x"][0] and ev["x"][1] != exp["x"][1]) if k == "nfree" else \
+                          ev["x"][2] not in (exp["x"][2], exp["x"][2] - exp.get("dr", 0))
+                if differs and (same_entries if k == "count" else same_shape):
                     out.append(dict(base, kind=k, e=ev, expected=exp["x"][i], got=ev["x"][i]))
         if "t" in ev:
             w = tree_wf(ev["t"])
@@ -570,7 +573,9 @@ def _ret_matches(ev, mine, logged):
     try:
         if ev.get("a") == "Retain" and not ev.get("pan"):
             return sorted(json.dumps(x, sort_keys=True) for x in mine) == sorted(json.dumps(x, sort_keys=True) for x in logged)
-        if ev.get("a") == "Find" and ev.get("kind") == "find":
+        if ev.get("a") == "Len" and mine != logged:
+            return True        # TraceV accepted neither the drifted nor the true value: reported through exp below
+        if ev.get("a") == "Find" and ev.get("kind") == "find" and len(ev["q"]["n"]) < len(ev["p"]["n"]):
             if len(mine) != len(logged):
                 return False
             return not mine or (mine[0]["ok"] == logged[0]["ok"] and mine[0]["d"]["it"] == logged[0]["d"]["it"])
@@ -733,13 +738,14 @@ def owners_plain(mm):
             exp, got = mm["expected"], mm["got"]
             if exp["t"] == got["t"]:
                 o = set()
-                if exp["x"][:2] != got["x"][:2]:
+                if got["x"][0] > exp["x"][0] or (got["x"][0] == exp["x"][0] and got["x"][1] != exp["x"][1]):
                     o.add("C16")
-                if exp["x"][2] != got["x"][2]:
+                if got["x"][2] not in (exp["x"][2], exp["x"][2] - (mm.get("row") or {}).get("dr", 0)):
                     o.add("C04")
                 return o or {"C01"}
             if tree_entries(exp["t"]) == tree_entries(got["t"]):
-                return {"C15"}
+                # the shape is fixed by the property only for histories of insert / remove / retain / clear
+                return {"C15"} if (mm.get("row") or {}).get("cn") else {"C15-nonbinding"}
         except Exception:
             pass
         return {"C01"}
